@@ -484,9 +484,67 @@ open CR
 """
 
 
+class _Rename(ast.NodeTransformer):
+    def __init__(self, m):
+        self.m = m
+
+    def visit_Name(self, n):
+        return ast.copy_location(ast.Name(id=self.m.get(n.id, n.id), ctx=n.ctx), n)
+
+
+def moves_table(repo, name, file, cls, func):
+    """STRUCTURAL extraction for a `translate_rotate` method: every call `<part>.translate_rotate(<args>)` in the body, with the
+    loop it sits in and the place its result is stored (loop variables are renamed v0, v1, … in order of appearance), plus the
+    kinds of all statements of the body in order — so an added guard, a dropped part, a changed argument all change the table."""
+    fn = find_func(ast.parse(open(os.path.join(repo, file), encoding="utf-8").read()), cls, func)
+    ren, k = {}, 0
+    for n in ast.walk(fn):
+        if isinstance(n, ast.For):
+            for x in ast.walk(n.target):
+                if isinstance(x, ast.Name) and x.id not in ren:
+                    ren[x.id] = f"v{k}"
+                    k += 1
+    fn = _Rename(ren).visit(fn)
+    rows = []
+
+    def q(x):
+        r = ast.unparse(x) if x is not None else ""
+        if '"' in r or "\\" in r:
+            raise Unsupported("quote in unparsed expression")
+        return r
+
+    def walk(stmts, loop):
+        for st in stmts:
+            if isinstance(st, ast.Expr) and isinstance(st.value, ast.Constant):
+                continue
+            calls = [c for c in ast.walk(st) if isinstance(c, ast.Call) and isinstance(c.func, ast.Attribute)
+                     and c.func.attr == "translate_rotate"] if not isinstance(st, (ast.For, ast.If, ast.While)) else []
+            for c in calls:
+                tgt = q(st.targets[0]) if isinstance(st, ast.Assign) and st.value is c and len(st.targets) == 1 else ""
+                rows.append((q(c.func.value), ", ".join(q(a) for a in c.args), loop, tgt))
+            if isinstance(st, ast.For):
+                walk(st.body, q(st.iter))
+            elif isinstance(st, (ast.If, ast.While)):
+                walk(st.body + st.orelse, loop + " | " + q(st.test))
+    walk(fn.body, "")
+    kinds = " ".join(type(n).__name__ for n in ast.walk(fn) if isinstance(n, ast.stmt) and n is not fn
+                     and not (isinstance(n, ast.Expr) and isinstance(n.value, ast.Constant)))
+    body = ", ".join(f'("{a}", "{b}", "{c}", "{d}")' for a, b, c, d in rows)
+    return (f"/-- {file}: {cls}.{func} — structural extraction: (moved part, arguments, enclosing loop, where the result is stored) -/\n"
+            f"def {name}_moves : List (String × String × String × String) := [{body}]\n"
+            f"/-- the kinds of the statements of the body, in order -/\n"
+            f"def {name}_stmts : String := \"{kinds}\"\n")
+
+
+STRUCT = [("GoalRegion_translate_rotate", G, "GoalRegion", "translate_rotate"),
+          ("PlanningProblem_translate_rotate", P, "PlanningProblem", "translate_rotate"),
+          ("PlanningProblemSet_translate_rotate", P, "PlanningProblemSet", "translate_rotate")]
+
+
 def chunks(repo):
     """[(name, producer)] — functional targets first, then the structural tables."""
     out = [(t.name, (lambda t=t: translate_target(repo, t))) for t in targets()]
+    out += [(a[0], (lambda a=a: moves_table(repo, *a))) for a in STRUCT]
     return out
 
 
